@@ -466,7 +466,18 @@ def c10_jobs(tier, repo):
             (["--small", "--fill=0,12,33,70", "--max-depth=%d" % (6 if q else 8)], "5 keys, filler levels 0/12/33/70 (turn-around inside a shrink)"),
             (["--small", "--no-reload", "--fill=0,10,70", "--max-depth=%d" % (7 if q else 9)], "5 keys, no reload, filler levels 0/10/70"),
             (["--small", "--fill=0,20,130", "--max-depth=%d" % (5 if q else 7)], "5 keys, filler levels 0/20/130 (two splits)")]
-    return [Job("spki_seqx", C10_BUILD, a, l) for a, l in cfgs]
+    jobs = [Job("spki_seqx", C10_BUILD, a, l) for a, l in cfgs]
+    # the callbacks of the key table through the REAL rtr_sync (deltas, roll-backs, reloads with their diff): a mirror
+    # driven only by the callback must equal the table after every response of the family
+    n = 4 if q else 5
+    jobs += [Job("envx_bytes", BYTES_BUILD, ["--prop=C10R", "--n=%d" % n, "--syms=10,11,12,13,4,3", "--bound=0",
+                                             "--shard=%d" % i, "--nshards=4"],
+                 "key callbacks through the real rtr_sync: responses <=%d PDUs over the router-key symbols + 2 prefix symbols, shard %d/4"
+                 % (n, i)) for i in range(4)]
+    jobs += [Job("envx_bytes", BYTES_BUILD, ["--prop=C10R", "--n=2", "--bound=1", "--shard=%d" % i, "--nshards=2"],
+                 "key callbacks through the real rtr_sync: responses <=2 PDUs over the full alphabet, 1 transport fault, shard %d/2" % i)
+             for i in range(2)]
+    return jobs
 
 
 SPECS["C10"] = CheckSpec(
@@ -480,7 +491,9 @@ SPECS["C10"] = CheckSpec(
          "around inside a resize); in every distinct state spki_table_get_all for "
          "every (AS,SKI) and spki_table_search_by_ski for every SKI are compared with the model as multisets, return "
          "codes with set semantics, and a mirror set driven only by the update callbacks with the contents; state key = "
-         "stored list order + hash geometry + model + mirror",
+         "stored list order + hash geometry + model + mirror; plus (envx_bytes --prop=C10R) the same mirror kept "
+         "while the real rtr_sync applies every response of the C03 family over the router-key symbols (deltas, "
+         "roll-backs, reloads with their diff notification, transport faults)",
     assumptions=["alphabet of 6 keys + filler block; the fixed point is reached without fillers, filler jobs are depth-bounded"],
     counters_map={"executions": ["transitions"], "distinct": ["states"]},
     level_text="Explicit-state model checking of the real hash table + list against a set model and a callback mirror: "
@@ -616,9 +629,9 @@ SPECS["C03"] = CheckSpec(
     "C03", c03_jobs,
     rule="start state reached by a real initial synchronisation through the real FSM thread (socket holds O = 3 prefixes "
          "+ 1 key; another source holds overlapping records in the same tables); then EVERY response of the family "
-         "{delta, reload after Cache Reset} x PDU sequences up to the length bound over 25 symbols (announce / withdraw "
+         "{delta, reload after Cache Reset} x PDU sequences up to the length bound over 27 symbols (announce / withdraw "
          "of present / absent IPv4, IPv6 and router-key records incl. the twin of the other source's record, flags=2, "
-         "odd invalid flags on a router key / IPv4 / IPv6 PDU, Serial Notify, Reset Query, Cache Reset, Cache Response, "
+         "odd invalid flags on a router key / IPv4 / IPv6 PDU, a legal prefix length with a max-length beyond the width, Serial Notify, Reset Query, Cache Reset, Cache Response, "
          "bad-length PDU, Error Report, wrong-version PDU) x 5 "
          "terminators (End of Data ok / foreign session, timeout, transport error, close), plus one transport fault at "
          "every receive call of the response; length-4 (thorough 5) responses over the prefix symbols and over a 7-symbol "
